@@ -287,7 +287,7 @@ macro_rules! step_harness {
 // stack manipulation
 // ---------------------------------------------------------------------------------------------
 
-//@ tier=quick cap=600 funcs=ExecuteContext::execute_,Stack::push,ProgramCounter,StackFrame::exit_scope,Stack::slide bound=frame_of_2_slots;operand_any_i64
+//@ tier=quick cap=600 mem=6 funcs=ExecuteContext::execute_,Stack::push,ProgramCounter,StackFrame::exit_scope,Stack::slide bound=frame_of_2_slots;operand_any_i64
 step_harness!(c01_step_PushInt, {
     let (a, b, x) = (any_scalar(), any_scalar(), kani::any());
     check_step(PushInt(x), &[repr_of(a), repr_of(b)], (None, None), Expect { frame: Some(pad(&[a, b, V::I(x)])) });
@@ -320,7 +320,7 @@ step_harness!(c01_step_Push, {
     check_step(Push(i), &[repr_of(a), repr_of(b), repr_of(c)], (None, None), Expect { frame: Some(pad(&[a, b, c, v])) });
 });
 
-//@ tier=quick cap=600 funcs=ExecuteContext::execute_,StackFrame::get_upvar bound=2_upvars;frame_of_1_slot
+//@ tier=quick cap=600 mem=6 funcs=ExecuteContext::execute_,StackFrame::get_upvar bound=2_upvars;frame_of_1_slot
 step_harness!(c01_step_PushUpVar, {
     let (a, u0, u1) = (any_scalar(), any_scalar(), any_scalar());
     let i: VmIndex = kani::any();
@@ -329,7 +329,7 @@ step_harness!(c01_step_PushUpVar, {
     check_step(PushUpVar(i), &[repr_of(a)], (Some(u0), Some(u1)), Expect { frame: Some(pad(&[a, v])) });
 });
 
-//@ tier=thorough cap=1800 funcs=ExecuteContext::execute_,StackFrame::pop_many bound=frame_of_3_slots;n_le_2 mem=14
+//@ tier=thorough cap=1800 funcs=ExecuteContext::execute_,StackFrame::pop_many bound=frame_of_3_slots;n_le_2 mem=24
 step_harness!(c01_step_Pop, {
     let (a, b, c) = (any_scalar(), any_scalar(), any_scalar());
     let n: VmIndex = kani::any();
@@ -338,7 +338,7 @@ step_harness!(c01_step_Pop, {
     check_step(Pop(n), &[repr_of(a), repr_of(b), repr_of(c)], (None, None), Expect { frame: Some(e) });
 });
 
-//@ tier=thorough cap=1800 funcs=ExecuteContext::execute_,Stack::slide,Stack::copy_value bound=frame_of_3_slots;n_le_2 mem=14
+//@ tier=thorough cap=1800 funcs=ExecuteContext::execute_,Stack::slide,Stack::copy_value bound=frame_of_3_slots;n_le_2 mem=24
 step_harness!(c01_step_Slide, {
     let (a, b, c) = (any_scalar(), any_scalar(), any_scalar());
     let n: VmIndex = kani::any();
@@ -357,20 +357,20 @@ macro_rules! pop_slide_concrete {
         });
     };
 }
-//@ tier=thorough cap=1800 funcs=ExecuteContext::execute_,StackFrame::pop_many bound=frame_of_3_slots;n=1 mem=14
+//@ tier=thorough cap=1800 funcs=ExecuteContext::execute_,StackFrame::pop_many bound=frame_of_3_slots;n=1 mem=24
 pop_slide_concrete!(c01_step_Pop_1, Pop, 1, |a, b, c| [a, b]);
-//@ tier=thorough cap=1800 funcs=ExecuteContext::execute_,StackFrame::pop_many bound=frame_of_3_slots;n=2 mem=14
+//@ tier=thorough cap=1800 funcs=ExecuteContext::execute_,StackFrame::pop_many bound=frame_of_3_slots;n=2 mem=24
 pop_slide_concrete!(c01_step_Pop_2, Pop, 2, |a, b, c| [a]);
-//@ tier=thorough cap=1800 funcs=ExecuteContext::execute_,Stack::slide,Stack::copy_value bound=frame_of_3_slots;n=1 mem=14
+//@ tier=thorough cap=1800 funcs=ExecuteContext::execute_,Stack::slide,Stack::copy_value bound=frame_of_3_slots;n=1 mem=24
 pop_slide_concrete!(c01_step_Slide_1, Slide, 1, |a, b, c| [a, c]);
-//@ tier=thorough cap=1800 funcs=ExecuteContext::execute_,Stack::slide,Stack::copy_value bound=frame_of_3_slots;n=2 mem=14
+//@ tier=thorough cap=1800 funcs=ExecuteContext::execute_,Stack::slide,Stack::copy_value bound=frame_of_3_slots;n=2 mem=24
 pop_slide_concrete!(c01_step_Slide_2, Slide, 2, |a, b, c| [c]);
 
 // ---------------------------------------------------------------------------------------------
 // control flow
 // ---------------------------------------------------------------------------------------------
 
-//@ tier=thorough cap=1800 funcs=ExecuteContext::execute_,ProgramCounter::jump bound=frame_of_2_slots mem=14
+//@ tier=thorough cap=1800 funcs=ExecuteContext::execute_,ProgramCounter::jump bound=frame_of_2_slots mem=24
 step_harness!(c01_step_Jump, unwind 5, {
     let (a, b) = (any_scalar(), any_scalar());
     let st = stop();
@@ -385,7 +385,7 @@ step_harness!(c01_step_Jump, unwind 5, {
     kani::cover!(true, "step completed");
 });
 
-//@ tier=thorough cap=1800 funcs=ExecuteContext::execute_,ProgramCounter::jump,StackFrame::pop bound=frame_of_2_slots;condition_any_tag mem=14
+//@ tier=thorough cap=1800 funcs=ExecuteContext::execute_,ProgramCounter::jump,StackFrame::pop bound=frame_of_2_slots;condition_any_tag mem=24
 step_harness!(c01_step_CJump, unwind 5, {
     let a = any_scalar();
     let t: VmTag = kani::any();
@@ -404,7 +404,7 @@ step_harness!(c01_step_CJump, unwind 5, {
     kani::cover!(t != 0, "jump taken");
 });
 
-//@ tier=quick cap=600 funcs=ExecuteContext::execute_,StackFrame::exit_scope,Stack::slide bound=frame_of_3_slots;returns_top
+//@ tier=quick cap=600 mem=6 funcs=ExecuteContext::execute_,StackFrame::exit_scope,Stack::slide bound=frame_of_3_slots;returns_top
 step_harness!(c01_step_Return, {
     let (a, b, c) = (any_scalar(), any_scalar(), any_scalar());
     let out = run(vec![Return], &[repr_of(a), repr_of(b), repr_of(c)], (None, None));
@@ -417,7 +417,7 @@ step_harness!(c01_step_Return, {
 // data access
 // ---------------------------------------------------------------------------------------------
 
-//@ tier=quick cap=600 funcs=ExecuteContext::execute_,DataStruct::tag bound=tag_value_any_u32;frame_of_2_slots
+//@ tier=quick cap=600 mem=6 funcs=ExecuteContext::execute_,DataStruct::tag bound=tag_value_any_u32;frame_of_2_slots
 step_harness!(c01_step_TestTag_tag, {
     let a = any_scalar();
     let (t, want): (VmTag, VmTag) = (kani::any(), kani::any());
@@ -441,7 +441,7 @@ step_harness!(c01_step_TestTag_data, {
     );
 });
 
-//@ tier=quick cap=600 funcs=ExecuteContext::execute_ bound=data_with_2_fields;offset_lt_2
+//@ tier=quick cap=600 mem=6 funcs=ExecuteContext::execute_ bound=data_with_2_fields;offset_lt_2
 step_harness!(c01_step_GetOffset, {
     let (a, f0, f1) = (any_scalar(), any_scalar(), any_scalar());
     let d = data(kani::any(), Some(f0), Some(f1));
@@ -456,7 +456,7 @@ step_harness!(c01_step_GetOffset, {
     );
 });
 
-//@ tier=thorough cap=1800 funcs=ExecuteContext::execute_,StackFrame::extend bound=data_with_2_fields mem=14
+//@ tier=thorough cap=1800 funcs=ExecuteContext::execute_,StackFrame::extend bound=data_with_2_fields mem=24
 step_harness!(c01_step_Split_data, {
     let (a, f0, f1) = (any_scalar(), any_scalar(), any_scalar());
     let d = data(kani::any(), Some(f0), Some(f1));
@@ -468,7 +468,7 @@ step_harness!(c01_step_Split_data, {
     );
 });
 
-//@ tier=quick cap=600 funcs=ExecuteContext::execute_ bound=zero_argument_variant
+//@ tier=quick cap=600 mem=6 funcs=ExecuteContext::execute_ bound=zero_argument_variant
 step_harness!(c01_step_Split_tag, {
     let a = any_scalar();
     check_step(Split, &[repr_of(a), Tag(kani::any())], (None, None), Expect { frame: Some(pad(&[a])) });
@@ -491,11 +491,11 @@ macro_rules! int_arith {
         });
     };
 }
-//@ tier=quick cap=900 funcs=ExecuteContext::execute_,binop_int,binop bound=operands_any_i64;frame_of_3_slots mem=14
+//@ tier=thorough cap=1800 mem=24 funcs=ExecuteContext::execute_,binop_int,binop bound=operands_any_i64;frame_of_3_slots mem=24
 int_arith!(c01_step_AddInt, AddInt, checked_add);
-//@ tier=thorough cap=1800 funcs=ExecuteContext::execute_,binop_int,binop bound=operands_any_i64;frame_of_3_slots mem=14
+//@ tier=thorough cap=1800 funcs=ExecuteContext::execute_,binop_int,binop bound=operands_any_i64;frame_of_3_slots mem=24
 int_arith!(c01_step_SubtractInt, SubtractInt, checked_sub);
-//@ tier=thorough cap=1800 funcs=ExecuteContext::execute_,binop_int,binop bound=operands_any_i64;frame_of_3_slots mem=14
+//@ tier=thorough cap=1800 funcs=ExecuteContext::execute_,binop_int,binop bound=operands_any_i64;frame_of_3_slots mem=24
 int_arith!(c01_step_DivideInt, DivideInt, checked_div);
 
 // Division with a CONCRETE divisor and any dividend: a symbolic 64-bit divider compared with a second,
@@ -518,14 +518,14 @@ macro_rules! int_div_by {
         });
     };
 }
-//@ tier=quick cap=900 mem=14 funcs=ExecuteContext::execute_,binop_int,binop bound=dividend_any_i64;divisor_minus_1
+//@ tier=quick cap=1200 mem=24 funcs=ExecuteContext::execute_,binop_int,binop bound=dividend_any_i64;divisor_minus_1
 int_div_by!(c01_step_DivideInt_by_m1, -1);
-//@ tier=quick cap=900 mem=14 funcs=ExecuteContext::execute_,binop_int,binop bound=dividend_any_i64;divisor_0
+//@ tier=thorough cap=1800 mem=24 funcs=ExecuteContext::execute_,binop_int,binop bound=dividend_any_i64;divisor_0
 int_div_by!(c01_step_DivideInt_by_0, 0);
-//@ tier=quick cap=900 mem=14 funcs=ExecuteContext::execute_,binop_int,binop bound=dividend_any_i64;divisor_2
+//@ tier=thorough cap=1800 mem=24 funcs=ExecuteContext::execute_,binop_int,binop bound=dividend_any_i64;divisor_2
 int_div_by!(c01_step_DivideInt_by_2, 2);
 
-//@ tier=thorough cap=1800 funcs=ExecuteContext::execute_,binop_int,binop bound=operands_any_i32_sign_extended;frame_of_3_slots mem=14
+//@ tier=thorough cap=1800 funcs=ExecuteContext::execute_,binop_int,binop bound=operands_any_i32_sign_extended;frame_of_3_slots mem=24
 step_harness!(c01_step_MultiplyInt, {
     // 64x64 symbolic multiplication with overflow detection is a known SAT-hard kernel; the
     // operands are restricted to the i32 range (overflow then never happens: also asserted).
@@ -539,7 +539,7 @@ step_harness!(c01_step_MultiplyInt, {
     check_step(MultiplyInt, &[repr_of(s), Int(a), Int(b)], (None, None), exp);
 });
 
-//@ tier=thorough cap=1800 funcs=ExecuteContext::execute_,binop_int,binop bound=multiply_overflow_boundaries;one_operand_power_of_two mem=14
+//@ tier=thorough cap=1800 funcs=ExecuteContext::execute_,binop_int,binop bound=multiply_overflow_boundaries;one_operand_power_of_two mem=24
 step_harness!(c01_step_MultiplyInt_pow2, {
     // any a, b = +-2^k: decides the overflow boundary exactly without a general multiplier
     let s = any_scalar();
@@ -564,7 +564,7 @@ macro_rules! int_cmp {
         });
     };
 }
-//@ tier=quick cap=600 funcs=ExecuteContext::execute_,binop_bool,binop bound=operands_any_i64
+//@ tier=quick cap=600 mem=6 funcs=ExecuteContext::execute_,binop_bool,binop bound=operands_any_i64
 int_cmp!(c01_step_IntLT, IntLT, <);
 //@ tier=thorough cap=1800 funcs=ExecuteContext::execute_,binop_bool,binop bound=operands_any_i64
 int_cmp!(c01_step_IntEQ, IntEQ, ==);
@@ -582,13 +582,13 @@ macro_rules! byte_arith {
         });
     };
 }
-//@ tier=thorough cap=1800 funcs=ExecuteContext::execute_,binop_byte,binop bound=operands_any_u8 mem=14
+//@ tier=thorough cap=1800 funcs=ExecuteContext::execute_,binop_byte,binop bound=operands_any_u8 mem=24
 byte_arith!(c01_step_AddByte, AddByte, checked_add);
-//@ tier=thorough cap=1800 funcs=ExecuteContext::execute_,binop_byte,binop bound=operands_any_u8 mem=14
+//@ tier=thorough cap=1800 funcs=ExecuteContext::execute_,binop_byte,binop bound=operands_any_u8 mem=24
 byte_arith!(c01_step_SubtractByte, SubtractByte, checked_sub);
-//@ tier=thorough cap=1800 funcs=ExecuteContext::execute_,binop_byte,binop bound=operands_any_u8 mem=14
+//@ tier=thorough cap=1800 funcs=ExecuteContext::execute_,binop_byte,binop bound=operands_any_u8 mem=24
 byte_arith!(c01_step_MultiplyByte, MultiplyByte, checked_mul);
-//@ tier=thorough cap=1800 funcs=ExecuteContext::execute_,binop_byte,binop bound=operands_any_u8 mem=14
+//@ tier=thorough cap=1800 funcs=ExecuteContext::execute_,binop_byte,binop bound=operands_any_u8 mem=24
 byte_arith!(c01_step_DivideByte, DivideByte, checked_div);
 
 macro_rules! byte_cmp {
@@ -603,7 +603,7 @@ macro_rules! byte_cmp {
 }
 //@ tier=thorough cap=1800 funcs=ExecuteContext::execute_,binop_bool,binop bound=operands_any_u8
 byte_cmp!(c01_step_ByteLT, ByteLT, <);
-//@ tier=quick cap=600 funcs=ExecuteContext::execute_,binop_bool,binop bound=operands_any_u8
+//@ tier=quick cap=600 mem=6 funcs=ExecuteContext::execute_,binop_bool,binop bound=operands_any_u8
 byte_cmp!(c01_step_ByteEQ, ByteEQ, ==);
 
 macro_rules! float_arith {
@@ -650,14 +650,14 @@ macro_rules! float_cmp {
 }
 //@ tier=thorough cap=1800 funcs=ExecuteContext::execute_,binop_bool,binop bound=operands_any_f64_bits
 float_cmp!(c01_step_FloatLT, FloatLT, <);
-//@ tier=quick cap=600 funcs=ExecuteContext::execute_,binop_bool,binop bound=operands_any_f64_bits
+//@ tier=quick cap=600 mem=6 funcs=ExecuteContext::execute_,binop_bool,binop bound=operands_any_f64_bits
 float_cmp!(c01_step_FloatEQ, FloatEQ, ==);
 
 // ---------------------------------------------------------------------------------------------
 // vacuity canary
 // ---------------------------------------------------------------------------------------------
 
-//@ tier=quick cap=600
+//@ tier=quick cap=600 mem=6
 step_harness!(c01_step_canary, {
     let (a, b, x) = (any_scalar(), any_scalar(), kani::any());
     check_step(PushInt(x), &[repr_of(a), repr_of(b)], (None, None), Expect { frame: Some(pad(&[a, b, V::I(x)])) });
